@@ -10,9 +10,11 @@ DBLFLAGS:= $(STD) -O1 -g0 -w -I$(REPO)/lib -I/verif/symx
 # translation units of the library; the excluded ones do not compile under the scalar
 # substitution (bool/int initialised from a scalar, yaml-cpp headers) and anchor no numeric property
 EXCL    := %/yaml2gkf.cpp %/gkf2yaml.cpp %/html.cpp %/localnetworkoctave.cpp
+# statan.cpp is replaced by uninterpreted stubs in the symbolic build only (symx/statan_stub.cpp)
+SYMEXCL := %/statan.cpp
 SRCS    := $(filter-out $(EXCL),$(shell find $(REPO)/lib/gnu_gama -name '*.cpp' | sort))
 REL     := $(patsubst $(REPO)/lib/%.cpp,%,$(SRCS))
-SYMOBJ  := $(addprefix $(B)/sym/,$(addsuffix .o,$(REL)))
+SYMOBJ  := $(addprefix $(B)/sym/,$(addsuffix .o,$(patsubst $(REPO)/lib/%.cpp,%,$(filter-out $(SYMEXCL),$(SRCS)))))
 DBLOBJ  := $(addprefix $(B)/dbl/,$(addsuffix .o,$(REL)))
 
 .PHONY: framework symlib dbllib clean
@@ -35,8 +37,10 @@ $(B)/gen/svd_stub.o: $(B)/gen/svd_stub.cpp symx/prefix.h symx/sx.h symx/svd_cont
 	$(CXX) $(SYMFLAGS) -MMD -MP -c $< -o $@
 $(B)/svd_contract.o: symx/svd_contract.cpp symx/prefix.h symx/sx.h symx/svd_contract.h
 	$(CXX) $(SYMFLAGS) -MMD -MP -c $< -o $@
-$(B)/libgama_sym.a: $(SYMOBJ) $(B)/gen/svd_stub.o $(B)/svd_contract.o
-	@rm -f $@; ar rcs $@ $(SYMOBJ) $(B)/gen/svd_stub.o $(B)/svd_contract.o
+$(B)/statan_stub.o: symx/statan_stub.cpp symx/prefix.h symx/sx.h
+	$(CXX) $(SYMFLAGS) -MMD -MP -c $< -o $@
+$(B)/libgama_sym.a: $(SYMOBJ) $(B)/gen/svd_stub.o $(B)/svd_contract.o $(B)/statan_stub.o
+	@rm -f $@; ar rcs $@ $(SYMOBJ) $(B)/gen/svd_stub.o $(B)/svd_contract.o $(B)/statan_stub.o
 $(B)/libgama_dbl.a: $(DBLOBJ)
 	@rm -f $@; ar rcs $@ $(DBLOBJ)
 
